@@ -8,6 +8,7 @@ package main
 
 import (
 	"errors"
+	"io"
 	"fmt"
 	"net"
 	"os"
@@ -271,6 +272,7 @@ func runCase(r *h.Run, c caseT) {
 		pause = 1
 	}
 	readerDone := make(chan struct{})
+	var readerErr error // why the peer's reader ended (read after readerDone is closed)
 	go func() {
 		defer close(readerDone)
 		buf := make([]byte, 64<<10)
@@ -285,6 +287,7 @@ func runCase(r *h.Run, c caseT) {
 				atomic.AddInt64(&progress, int64(n))
 			}
 			if err != nil {
+				readerErr = err
 				return
 			}
 		}
@@ -457,17 +460,36 @@ func runCase(r *h.Run, c caseT) {
 		finalDrained = w.drainAll()
 	}
 	_ = w.cn.Close()
+	readerForced, readerShort := false, false
 	select {
 	case <-readerDone:
 	case <-time.After(10 * time.Second):
+		readerForced = true
 		peer.Close()
 		<-readerDone
 	}
 	if w.failed {
 		return
 	}
+	if finalDrained && !w.closed {
+		// nbio's responsibility ends at the syscall boundary, which the shim observes exactly: when
+		// every accepted byte was handed to the kernel but the peer's reader ended before it had
+		// them all, the loss is on the harness side of that boundary (reader ended by the harness
+		// or by an error of its own) and the stream can only be checked as a prefix
+		short := false
+		if w.pol != nil {
+			k := atomic.LoadInt64(&w.pol.KernelIn)
+			short = k >= w.accepted && int64(len(stream)) < k
+		}
+		if readerForced || (readerErr != nil && readerErr != io.EOF) || short {
+			finalDrained = false
+			readerShort = true
+			r.Count("reader_ended_before_kernel_bytes_arrived", 1)
+			r.Inconclusive(fmt.Sprintf("case %d: the peer's reader ended (%v, forced=%v) with %d bytes received, %d accepted; stream checked as a prefix", c.Index, readerErr, readerForced, len(stream), w.accepted))
+		}
+	}
 	// the stream itself must still be intact (C01 oracle, prefix when overflow closed it)
-	if !finalDrained && !w.closed {
+	if !finalDrained && !w.closed && !readerShort {
 		// the queue was not empty when the harness closed the connection: the stream is a prefix
 		// at best, and whether the drain stalled is C04's question
 		r.Inconclusive(fmt.Sprintf("case %d: final drain did not complete (C04 decides stalls); stream checked as a prefix", c.Index))
@@ -492,7 +514,13 @@ func runCase(r *h.Run, c caseT) {
 }
 
 func guarded(r *h.Run, c caseT) {
-	v := h.Guard(5*time.Minute, func() int64 { return atomic.LoadInt64(&progress) }, func() { runCase(r, c) })
+	v := h.Guard(5*time.Minute, func() int64 { return atomic.LoadInt64(&progress) }, func() {
+		if r.Phase == "conc" {
+			runConc(r, c)
+		} else {
+			runCase(r, c)
+		}
+	})
 	switch v.Kind {
 	case "":
 		return
@@ -537,11 +565,17 @@ func main() {
 	if r.Phase == "real" {
 		n = r.N(84, 840)
 	}
+	if r.Phase == "conc" {
+		n = r.N(72, 720)
+	}
 	for i := 0; i < n; i++ {
 		if !r.Mine(i) {
 			continue
 		}
 		c := genCase(r, r.Phase, i)
+		if r.Phase == "conc" {
+			c = genConc(r, i)
+		}
 		r.Begin(c)
 		guarded(r, c)
 		if i < 2 {
